@@ -1,0 +1,88 @@
+//go:build verif
+
+// Contracts for the verification machinery in /verif (comment-only; excluded from normal builds).
+// Property C29. Mode bv.
+//
+// Ghost input `outcome` says how the program given to `wa run` ends (chosen by the environment):
+//   0 = it does not compile / cannot be instantiated, 1 = it returns normally,
+//   2 = it calls exit(outcome_code), 3 = it traps or panics.
+// The ASSUMED contracts of the build and execution engine below tie their results to `outcome`.
+// The property is then a requirement on every way CmdRunAction/runWasm can end:
+//   - at every os.Exit(code): code must be the status the property demands for `outcome`
+//     (this is os.Exit's `requires`, so each call site is an obligation);
+//   - at a normal return main.main decides: status 0 when the action returned nil, status 1 when it
+//     returned an error (main.go prints it and exits 1) - so a return is allowed only when the property
+//     demands that status.
+// Not modelled: web mode (cut by `requires`; programs importing unknown console functions are assumed
+// away), unreadable input files (os.ReadFile is assumed to succeed).
+
+package apprun
+
+//@ ghost outcome int
+//@ ghost outcome_code uint32
+//@ spec (declare-fun exitcode_of (Int) (_ BitVec 32))
+//@ spec status_ok(code int) bool :=
+//@      (outcome == 1 ==> code == 0) && (outcome == 2 ==> code == int(outcome_code)) && (outcome == 0 || outcome == 3 ==> code != 0)
+//@ spec run_contract(err error) bool :=
+//@      ((err == nil) == (outcome == 1)) && outcome != 0 &&
+//@      (outcome == 2 ==> typeis(err, *sys.ExitError) && exitcode_of(payload(err)) == outcome_code) &&
+//@      (outcome == 3 ==> err != nil && !typeis(err, *sys.ExitError))
+
+//@ extern os.Exit
+//@   requires status_ok(code)
+//@   noreturn
+
+// ---- assumed: the engine
+//@ extern appbuild.BuildApp
+//@   ensures (err != nil) == (outcome == 0)
+//@ extern watutil.Wat2Wasm
+//@   ensures (err != nil) == (outcome == 0)
+//@ extern wazero.BuildModule
+//@   ensures result1 != nil ==> outcome == 0
+//@   ensures result1 == nil ==> result0 != nil
+//@ extern (*wazero.Module).RunMain
+//@   ensures run_contract(err)
+//@ extern wazero.RunWasm
+//@   ensures run_contract(err)
+//@ extern (*wazero.Module).Close
+//@ extern wazero.AsExitError
+//@   ensures ok == typeis(err, *sys.ExitError)
+//@   ensures ok ==> exitCode == int(exitcode_of(payload(err)))
+//@ extern wazero.HasUnknownConsoleImportFunc
+//@   ensures result == false
+
+// ---- assumed: environment (no effect on the outcome)
+//@ extern os.ReadFile
+//@   ensures result1 == nil
+//@ extern os.Getwd
+//@ extern os.Remove
+//@ extern (*cli.Context).Args
+//@ iface cli.Args.First
+//@ iface cli.Args.Slice
+//@ extern (*cli.Context).NArg
+//@ extern (*cli.Context).Bool
+//@   pure
+//@ extern (*cli.Context).String
+//@ extern appbase.HasExt
+//@   pure
+//@ extern appbase.BuildOptions
+//@   ensures result != nil
+//@ extern appbase.ReplaceExt
+//@ extern strings.HasPrefix
+//@   pure
+//@ extern filepath.Base
+//@ extern filepath.Join
+
+//@ func CmdRunAction
+//@   requires c != nil
+//@   requires !c.Bool("web")
+//@   ensures[return]    result == nil ==> status_ok(0)
+//@   ensures[returnerr] result != nil ==> status_ok(1)
+//@   noframe
+//@   property C29
+
+//@ func runWasm
+//@   ensures[return]    result == nil ==> status_ok(0)
+//@   ensures[returnerr] result != nil ==> status_ok(1)
+//@   noframe
+//@   property C29
